@@ -745,9 +745,13 @@ def pinned_cases():
              [{"op": "get", "side": "rq", "model": P_GET,
                "subs": [{"k": 1, "sop": CT, "enc": "impl", "how": "mem", "pix": True}]}], unrestricted=True),
         # send_c_cancel(msg_id, context_id=<id that was never accepted>)
-        case(900003, "pinned-cancel-context-id", [{"abs": VERIF, "ts": ["impl"]}, {"abs": P_FIND, "ts": ["impl"]}],
-             [sup(VERIF, ["impl"]), sup(P_FIND, ["impl"])],
-             [{"op": "cancel", "side": "rq", "by": "ctx", "context_id": 99}, {"op": "echo", "side": "rq"}]),
+        #   (99: never proposed; 5: accepted, but the requestor holds only the SCP role on it)
+        case(900003, "pinned-cancel-context-id",
+             [{"abs": VERIF, "ts": ["impl"]}, {"abs": P_FIND, "ts": ["impl"]}, {"abs": CT, "ts": ["impl"]}],
+             [sup(VERIF, ["impl"]), sup(P_FIND, ["impl"]), {"abs": CT, "ts": ["impl"], "scu": False, "scp": True}],
+             [{"op": "cancel", "side": "rq", "by": "ctx", "context_id": 99},
+              {"op": "cancel", "side": "rq", "by": "ctx", "context_id": 5}, {"op": "echo", "side": "rq"}],
+             roles={CT: [0, 1]}),
     ]
 
 
